@@ -375,7 +375,8 @@ def thread_chunk(job):
             ad.raw[name][k] = [0]
             pre.append({"op": "k_set", "name": name, "key": k, "val": [0]})
         ad.sync()
-        _common._wn.lock = sched.CoopLock(run)
+        if not sched.coop_locks(_common._wn, run):
+            _common._wn.lock = sched.CoopLock(run)
         logs = {"A": [], "B": []}
         state["pre"], state["logs"] = pre, logs
 
